@@ -623,11 +623,17 @@ def gen_flags_program(rng):
     for r in rng.sample(['eax', 'ecx', 'edx'], rng.choice([1, 2, 3])):
         ops.append({'op': 'insn', 'line': 'mov %s, %d' % (r, rng.choice([0, 0xFF, 0x11223344, 0x80000000, 0xFFFFFFFF, 0x1234]))})
     z = rng.random()
-    if z < 0.25:
+    if z < 0.2:
         ops.append({'op': 'insn', 'line': 'xor ebp, ebp'})
-    elif z < 0.5:
+    elif z < 0.4:
         ops.append({'op': 'insn', 'line': 'mov ebp, %d' % rng.choice([0, 0x80, 5])})
         ops.append({'op': 'insn', 'line': rng.choice(['test ebp, ebp', 'cmp ebp, 5'])})
+    elif z < 0.7:
+        # flags that are CONDITIONS with constant branches (cmc on a symbolic carry, bsf/test of a symbolic register)
+        # next to flags made constant by arithmetic on constants; conditions in registers (cmovcc of constants)
+        for line in rng.sample(['cmc', 'inc eax', 'dec ecx', 'bsf ebp, esi', 'bsf ebp, edi', 'cmovz eax, ecx', 'cmovb edx, eax', 'test eax, eax',
+                                'cmp eax, ecx', 'test edx, edx'], rng.choice([2, 3, 4])):
+            ops.append({'op': 'insn', 'line': line})
     for _ in range(rng.randrange(1, 6)):
         ops.append({'op': 'insn', 'line': rng.choice(FLAG_MOVERS) if rng.random() < 0.8 else gen_move_line(rng)})
     return ops
